@@ -869,7 +869,22 @@ func c04LoopSignals(c *Ctx, r *Result) {
 					continue
 				}
 				if rv == st.canon(b.errV) && st.Get(b.errV, o) != AvNil {
-					bad[i] = true
+					// an error that failed the assertion to the runtime error type on this path is no signal
+					notSignal := false
+					allInstrs(fn, func(x ssa.Instruction) {
+						ta, ok := x.(*ssa.TypeAssert)
+						if !ok || !ta.CommaOk || !strings.Contains(ta.AssertedType.String(), "RuntimeError") || st.canon(ta.X) != st.canon(b.errV) {
+							return
+						}
+						for _, ref := range *ta.Referrers() {
+							if e, ok := ref.(*ssa.Extract); ok && e.Index == 1 && st.Get(e, o) == AvNil {
+								notSignal = true
+							}
+						}
+					})
+					if !notSignal {
+						bad[i] = true
+					}
 				}
 			}
 		}
